@@ -166,6 +166,9 @@ def specs(tier):
     # '@' + line break(s) / blanks in front of a nested group inside a braced value
     for n in (3, 2, 1):
         pairs.append((f"atvalue-{n}", [("atvalue", n)]))
+    # a quote-enclosed value with braces / backslashes / filler inside (written brace-enclosed: `"a \\\\{b} c"` must not gain a layer)
+    for n in ((4, 5) if big else (4,)):
+        pairs.append((f"qentry-{n}", [("qentry", n)]))
     pairs.append(("strref-after", [("entry", 1, 1, 1, 0, False), ("sep", 1), ("string", 1, 2, 0)]))
     triples = []
     if big:
@@ -180,7 +183,7 @@ def main():
     chk = Check("C05", __doc__)
     single, pairs, triples = specs(chk.tier)
     chk.bounds = {"templates": f"{len(single)} single blocks, {len(pairs)} pairs, {len(triples)} triples (holes as in C02, values <= {3 if chk.tier == 'quick' else 4} chars)",
-                  "macro-shaped literals": "@string{x = {S}} + entry with f = '{' + 1..5 | 6 characters over x # \" blank 1 + '}'", "'@' inside a value": "f = '{' + 1..3 characters over '@', line feed, blank, x + '{y}}'", "format": "trailing_comma symbolic; value_column symbolic 0..12 or 'auto'; indent in {'', ' ', tab, 2 symbolic blanks/tabs}; block_separator 0..2 symbolic chars over newline/space"}
+                  "macro-shaped literals": "@string{x = {S}} + entry with f = '{' + 1..5 | 6 characters over x # \" blank 1 + '}'", "quote-enclosed values": "f = '\"' + 4 (thorough: 4..5) characters over " + repr(G.Q_SIGMA) + " + '\"' restricted to `value`", "'@' inside a value": "f = '{' + 1..3 characters over '@', line feed, blank, x + '{y}}'", "format": "trailing_comma symbolic; value_column symbolic 0..12 or 'auto'; indent in {'', ' ', tab, 2 symbolic blanks/tabs}; block_separator 0..2 symbolic chars over newline/space"}
     chk.assumptions = ["separators and indents contain whitespace only (anything else writes extra free text by construction)",
                        "documents without duplicate block/field keys (C09)",
                        "@comment bodies whose whitespace-stripped text ends in an unescaped backslash are excluded (the comment is stored stripped, which cuts the escape; DESIGN §4 C05)", "grammar-derived documents within the hole bounds"]
